@@ -752,6 +752,8 @@ run_hist (kase const &k)
 	  long id = std::stol (tok.substr (1, ab - 1));
 	  bool use_b = tok[ab] == 'b';
 	  long sid = std::stol (tok.substr (ab + 2));
+	  if (!use_b && qa == nullptr)
+	    use_b = true;
 	  if (use_b && qb == nullptr)
 	    {
 	      qb = zw_query_parse_len (g_voc, k.query.data (), k.query.size (), &e);
@@ -806,6 +808,13 @@ run_hist (kase const &k)
 	      results[id] = nullptr;
 	    }
 	}
+      else if (op == 'k')
+	{
+	  // the query goes away while result sets of it are still open
+	  if (qa != nullptr)
+	    zw_query_destroy (qa);
+	  qa = nullptr;
+	}
       else if (op == 'c')
 	{
 	  std::string q = unhex (tok.substr (2));
@@ -826,8 +835,13 @@ run_hist (kase const &k)
 	      zw_result *r = zw_query_execute (o, es, &e);
 	      zw_stack *out = nullptr;
 	      size_t n = 0;
-	      while (r != nullptr && zw_result_next (r, &out, &e) && out != nullptr && n++ < 1000)
-		zw_stack_destroy (out);
+	      while (r != nullptr && zw_result_next (r, &out, &e) && out != nullptr)
+		{
+		  zw_stack_destroy (out);
+		  out = nullptr;
+		  if (++n >= 1000)
+		    break;
+		}
 	      if (r != nullptr)
 		zw_result_destroy (r);
 	      zw_stack_destroy (es);
@@ -853,7 +867,8 @@ run_hist (kase const &k)
     zw_query_destroy (o);
   if (qb != nullptr)
     zw_query_destroy (qb);
-  zw_query_destroy (qa);
+  if (qa != nullptr)
+    zw_query_destroy (qa);
   return "{\"pulls\":[" + pulls + "],\"stacks_modified\":" + (modified ? "true" : "false") + "}";
 }
 
